@@ -156,7 +156,7 @@ def run_modal(rep, logics, d, tag, maxw=3, workers=2, full=False):
 # --------------------------------------------------------------------------
 # first-order calculus (TableauFOMC.tla)
 # --------------------------------------------------------------------------
-FO_CFG = ("SPECIFICATION Spec\nINVARIANT Saturated\nINVARIANT ModelSatisfiesBranch\nINVARIANT VerdictAsRecorded\n"
+FO_CFG = ("SPECIFICATION Spec\nINVARIANT Saturated\nINVARIANT ModelSatisfiesBranch\nINVARIANT VerdictAsRecorded\nINVARIANT SoundWhenClosed\n"
           "PROPERTY Termination\nCHECK_DEADLOCK FALSE\n")
 FO_HEAVY = {'K3W', 'B3E', 'GO', 'K3WQ'}
 FO_LIGHT = ['univ-elim', 'exist-intro', 'exist-elim-bad', 'univ-intro-bad', 'univ-exist', 'syllogism', 'quant-neg', 'quant-neg2',
@@ -231,7 +231,7 @@ def run_fo(rep, logics, d, tag, workers=2, full=False):
                                                         'arguments': len(args_of(L)),
                                                         'verdicts': sorted({expect[f'{name}/{L}'] for name in args_of(L)})}
         if r.violated or 'Temporal properties were violated' in r.out:
-            which = [x for x in ('Saturated', 'ModelSatisfiesBranch', 'VerdictAsRecorded') if f'Invariant {x} is violated' in r.out]
+            which = [x for x in ('Saturated', 'ModelSatisfiesBranch', 'VerdictAsRecorded', 'SoundWhenClosed') if f'Invariant {x} is violated' in r.out]
             rep.violation({'kind': 'all_schedules_model', 'clause': (which or ['Termination'])[0], 'logic': L,
                            'logic_family': L, 'root': 'model-layer'},
                           {'tlc_tail': r.out[-3000:]})
